@@ -105,6 +105,11 @@ func Worker(e Engine, tier string, seed uint64, shard, of int, runs uint64, know
 	st := map[uint64]struct{}{}
 	seenSig := map[string]bool{}
 	prog, _ := os.Create(outPath + ".progress")
+	var dump *os.File
+	if d := os.Getenv("VERIF_TRACE_DUMP"); d != "" {
+		dump, _ = os.Create(fmt.Sprintf("%s.%d", d, shard))
+		defer dump.Close()
+	}
 	var pb [8]byte
 	for i := uint64(shard); i < runs; i += uint64(of) {
 		if deadline > 0 && (i/uint64(of))%64 == 0 && time.Since(start) > deadline {
@@ -120,6 +125,9 @@ func Worker(e Engine, tier string, seed uint64, shard, of int, runs uint64, know
 		res := e.Exec(plan)
 		out.Runs++
 		out.LogHash += Mix(res.Trace, "log", i)
+		if dump != nil {
+			fmt.Fprintf(dump, "%d %016x\n", i, res.Trace)
+		}
 		if res.Skipped != "" {
 			out.Skipped[res.Skipped]++
 		}
@@ -353,7 +361,7 @@ func Check(e Engine, o CheckOpts) int {
 			"--deadline", o.Deadline.String())
 		cmd.Stdout = logf
 		cmd.Stderr = logf
-		cmd.Env = append(os.Environ(), "GOMAXPROCS=2", "GORACE=halt_on_error=0 suppress_equal_stacks=0 suppress_equal_addresses=0 history_size=3 log_path="+outPath+".race")
+		cmd.Env = append(os.Environ(), "GOMAXPROCS=2", "GORACE=halt_on_error=0 suppress_equal_stacks=0 suppress_equal_addresses=0 history_size=3 exitcode=0 log_path="+outPath+".race")
 		if err := cmd.Start(); err != nil {
 			fmt.Fprintf(os.Stderr, "cannot start worker: %v\n", err)
 			return 2
@@ -460,7 +468,7 @@ func Check(e Engine, o CheckOpts) int {
 		_ = os.WriteFile(path, b, 0o644)
 		// fresh-process confirmation
 		cmd := exec.Command(o.Self, "replay", path)
-		cmd.Env = append(os.Environ(), "GOMAXPROCS=2", "GORACE=halt_on_error=0 suppress_equal_stacks=0 suppress_equal_addresses=0 history_size=3 log_path="+filepath.Join(o.Scratch, "replay.race"))
+		cmd.Env = append(os.Environ(), "GOMAXPROCS=2", "GORACE=halt_on_error=0 suppress_equal_stacks=0 suppress_equal_addresses=0 history_size=3 exitcode=0 log_path="+filepath.Join(o.Scratch, "replay.race"))
 		outb, _ := cmd.CombinedOutput()
 		confirmed := strings.Contains(string(outb), "REPRODUCED "+f.Sig) && !strings.Contains(string(outb), "NOT-REPRODUCED")
 		if !confirmed {
